@@ -426,6 +426,19 @@ func c05Run(c c05Case) Verdict {
 		}
 		return v
 	}
+	if c.ShuttingDown && len(rs) < len(p.body.exp) {
+		// a server that is shutting down may end the connections it still
+		// has (421 and goodbye, RFC 5321 3.8): what was answered until then
+		// is judged, bait included (above)
+		pre := rs
+		if n := len(pre); n > 0 && pre[n-1].Code == 421 {
+			pre = pre[:n-1]
+		}
+		if matchReplies(pre, p.body.exp[:len(pre)]) == "" {
+			v.Classes = append(v.Classes, "connection_ended_by_the_shutdown")
+			return v
+		}
+	}
 	if m := matchReplies(rs, p.body.exp); m != "" {
 		return failf("replies", "%s; stream %s", m, q(p.body.buf))
 	}
